@@ -63,10 +63,11 @@ func TestVerifRecC16(t *testing.T) {
 			g.scale(&C)
 		}
 		done := make(chan [2]*EdwardsPoint, 1)
+		xa := vexpand(g, A)
 		go func() {
 			var o1, o2 EdwardsPoint
 			o1.TripleScalarMulBasepointVartime(a, A, sb, &C)
-			o2.ExpandedTripleScalarMulBasepointVartime(a, NewExpandedEdwardsPoint(A), sb, &C)
+			o2.ExpandedTripleScalarMulBasepointVartime(a, xa, sb, &C)
 			done <- [2]*EdwardsPoint{&o1, &o2}
 		}()
 		e := vev{"op": "tsm", "cfg": cfg, "a": vb(ab), "b": vb(bb[:]), "A": vpt(vev{}, A), "C": vpt(vev{}, &C), "holds": holds}
